@@ -21,13 +21,13 @@ P = {
     'rule': 'a case is a random setup (balances, delegations, allocated rewards, withdraw addresses, staking and ICS-20 transfer grants of the signer) '
             'plus one Ethereum transaction: either EOA -> staking/distribution/ICS-20 precompile or EOA -> script contract running a '
             'random call tree (depth <= 3) of SSTORE / LOG / BALANCE / CALL with value / precompile calls (delegate, undelegate, withdraw, setWithdrawAddress, '
-            'claimRewards, ICS-20 transfer) / SELFDESTRUCT (a fifth of the cases self-destruct-heavy: few contracts called repeatedly) / CREATE with a scripted constructor (value, reverting, code-less, self-destructing constructors; CREATE addresses funded beforehand; a seventh of the cases creation-heavy) / zero-value calls to module accounts / REVERT with catching and '
+            'claimRewards, ICS-20 transfer) / SELFDESTRUCT (a fifth of the cases self-destruct-heavy: few contracts called repeatedly) / CREATE with a scripted constructor (value, reverting, code-less, self-destructing constructors; CREATE addresses funded beforehand; a seventh of the cases creation-heavy) / storage writes that restore the pre-transaction value inside a failing nested frame of the same contract (re-entered directly or through another contract; 5% of the bodies) / zero-value calls to module accounts / REVERT with catching and '
             'propagating callers, executed by the real EvmKeeper.ApplyTransaction; non-trivial = the transaction succeeded; '
             'distinct = distinct (setup, program)',
     'trusted_base': _COMMON_TB,
     'assumptions': ['gas price 0, so no fee enters the balance equations', 'one validator, no slashing (tokens = shares)'],
     'level_text': 'Coq theorems about the StateDB/journal/commit model and the precompile mirror discipline: exact supply-delta '
-                  'formula for every program (self-destructed contracts included: exactly their bank balance is burned), conservation for every pure program without SELFDESTRUCT, refutation witnesses for each '
+                  'formula for every program (self-destructed contracts included: exactly their bank balance is burned), conservation for every pure program (CREATE included) without SELFDESTRUCT, refutation witnesses for each '
                   'known finding class; the model is compared with the real keeper on generated call trees on every run, and the '
                   'property itself (supply unchanged apart from the sanctioned burn of self-destructed contracts; balances = before + received - paid) is evaluated on the real run',
     'level_note': 'partial: the theorem is about the model; interpreter, SDK keepers and gas are outside it (see trusted base)',
